@@ -74,13 +74,13 @@ class C07(Property):
         "well-formed workflows as generated; no recovery workflows (the recovery harness of C16 is not part of this check)",
         "control tokens put directly (TerminationToken, IterationTerminationToken) are not persisted — excluded by the statement",
     ]
-    quick_budget_s = 420
+    quick_budget_s = 600
     thorough_budget_s = 2400
-    min_nontrivial = 20
+    min_nontrivial = 12
 
     def explore(self, ctx: Ctx) -> None:
         rng = ctx.rng
-        n, k = (200, 3) if ctx.tier == "thorough" else (50, 2)
+        n, k = (200, 3) if ctx.tier == "thorough" else (40, 2)
         if ctx.mode == "search":
             n, k = n * 2, k + 2
         lines, metas = [], []
@@ -88,8 +88,8 @@ class C07(Property):
             if ctx.out_of_time():
                 ctx.extra["incomplete"] = True
                 break
-            if i >= 25 and ctx.tier == "quick" and ctx.time_left() < 0.45 * self.quick_budget_s:
-                # heavily loaded machine: the plan is "up to n workflows", at least 25 (the corpus included)
+            if i >= 20 and ctx.tier == "quick" and ctx.time_left() < 0.5 * self.quick_budget_s:
+                # heavily loaded machine: the plan is "up to n workflows", at least 20 (the corpus included)
                 ctx.notes.append(f"soft time limit: stopped after {i} of {n} planned workflows")
                 break
             feats = {"exec": 4} if rng.random() < 0.35 else ({"cart": 4, "gather": 6} if rng.random() < 0.25 else ({"loop": 3} if rng.random() < 0.25 else None))
